@@ -238,6 +238,70 @@ fn table_seeds(font_name: &str, font: &FontRef, out: &mut Vec<Seed>, st: &mut Se
             }
             _ => {}
         }
+        // sub-blob seeds: individual glyphs, charstrings and DICTs get their own (small) seeds so that
+        // deviations — including all pairs — land inside the hand-written decoders
+        match &tb {
+            b"glyf" => {
+                use read_fonts::tables::loca::Loca;
+                if let Ok(loca) = Loca::read(read_fonts::FontData::new(&ctx[0]), is_long != 0) {
+                    let mut taken = 0;
+                    for g in 0..loca.len() {
+                        let (Some(a), Some(b)) = (loca.get_raw(g), loca.get_raw(g + 1)) else { break };
+                        if b > a {
+                            if let Some(blob) = data.get(a as usize..b as usize) {
+                                out.push(Seed {
+                                    name: format!("{}#glyf/glyph{}", font_name, g),
+                                    class: "table",
+                                    ty: registry::find("glyf::Glyph"),
+                                    args: [0; 3],
+                                    drivers: vec![(drv("glyph"), [0; 3])],
+                                    data: blob.to_vec(),
+                                    ctx: vec![],
+                                    pos_limit: blob.len(),
+                                    extra_trunc: vec![],
+                                });
+                                taken += 1;
+                            }
+                        }
+                        if taken >= 24 {
+                            break;
+                        }
+                    }
+                }
+            }
+            b"CFF " => {
+                let (cs, dicts) = crate::drivers3::cff_sub_blobs(&data, 24);
+                for (i, c) in cs.into_iter().enumerate() {
+                    let n = c.len();
+                    out.push(Seed {
+                        name: format!("{}#CFF/charstring{}", font_name, i),
+                        class: "table",
+                        ty: None,
+                        args: [0; 3],
+                        drivers: vec![(drv("psblob"), [0, 0, 3])],
+                        data: c,
+                        ctx: vec![],
+                        pos_limit: n,
+                        extra_trunc: vec![],
+                    });
+                }
+                for (i, d) in dicts.into_iter().enumerate() {
+                    let n = d.len();
+                    out.push(Seed {
+                        name: format!("{}#CFF/dict{}", font_name, i),
+                        class: "table",
+                        ty: None,
+                        args: [0; 3],
+                        drivers: vec![(drv("psblob"), [0, 0, 2])],
+                        data: d,
+                        ctx: vec![],
+                        pos_limit: n,
+                        extra_trunc: vec![],
+                    });
+                }
+            }
+            _ => {}
+        }
         for args in args_list {
             let drivers = drivers_of(args);
             if ty.is_none() && drivers.is_empty() {
@@ -347,7 +411,9 @@ pub fn build_seeds(tier: Tier) -> (Vec<Seed>, SeedStats) {
         }
     }
     // (ii) font-test-data static blobs: fit matrix — a blob seeds every type (and argument value)
-    // that reads it successfully and exposes >= 2 fields
+    // that reads it successfully, exposes >= 2 fields, resolves everything without a single error and
+    // visits at least one node per 4 bytes of the blob (i.e. the type's shape really covers the blob;
+    // without this rule most small types "fit" any bytes and the matrix is mostly noise)
     for (bname, get) in registry::STATIC_BLOBS {
         let blob = get();
         for (ti, t) in TYPES.iter().enumerate() {
@@ -355,7 +421,11 @@ pub fn build_seeds(tier: Tier) -> (Vec<Seed>, SeedStats) {
                 st.static_fit_tried += 1;
                 let mut w = Walker::new(20_000, 12);
                 let r = vcore::guard(|| (t.read)(&blob, args, &mut w));
-                let fits = matches!(r, Ok(true)) && w.root_fields >= 2 && !w.horizon_hit;
+                let fits = matches!(r, Ok(true))
+                    && w.root_fields >= 2
+                    && !w.horizon_hit
+                    && w.errs == 0
+                    && w.nodes as usize * 4 >= blob.len();
                 // a panic on the pristine blob is still a seed: the engine will report it
                 if fits || r.is_err() {
                     let n = if t.arg_shape.is_empty() {
@@ -401,10 +471,159 @@ pub fn build_seeds(tier: Tier) -> (Vec<Seed>, SeedStats) {
             });
         }
     }
+    // (iv-b) types whose fixed-size part is longer than the zero-buffer bound: the shortest all-zero
+    // buffer (from a fixed ladder of lengths) that reads successfully becomes an ordinary seed
+    for (ti, t) in TYPES.iter().enumerate() {
+        for args in arg_domain(t.arg_shape, zl).into_iter().take(2) {
+            let reads = |len: usize| {
+                let z = vec![0u8; len];
+                let mut w = Walker::new(20_000, 12);
+                matches!(vcore::guard(|| (t.read)(&z, args, &mut w)), Ok(true))
+            };
+            if (0..=zl).step_by(8).any(reads) || reads(zl) {
+                continue;
+            }
+            for len in [128usize, 192, 256, 264, 384, 512, 520, 768, 1024, 2048, 4096, 8192, 8208, 16384] {
+                if len > zl && reads(len) {
+                    out.push(Seed {
+                        name: format!("zerobig:{}>{}@{},{},{}", len, t.name, args[0], args[1], args[2]),
+                        class: "static",
+                        ty: Some(ti),
+                        args,
+                        drivers: drivers_for_type(ti, args),
+                        data: vec![0u8; len],
+                        ctx: vec![],
+                        pos_limit: len,
+                        extra_trunc: vec![],
+                    });
+                    break;
+                }
+            }
+        }
+    }
     // de-duplicate identical (target, bytes, context)
     let mut seen = HashSet::new();
     let before = out.len();
     out.retain(|s| seen.insert(key_of(s)));
     st.duplicates_dropped = before - out.len();
     (out, st)
+}
+
+// ------------------------------------------------------------------------------------------
+// (de)serialisation: the seed list is built in a supervised child process (it parses the pristine
+// corpus with the code under test, which may hang or abort under a mutation) and handed to the
+// supervisor and the workers through a file.
+// ------------------------------------------------------------------------------------------
+
+fn put_u32(o: &mut Vec<u8>, v: u32) {
+    o.extend_from_slice(&v.to_le_bytes());
+}
+fn put_bytes(o: &mut Vec<u8>, b: &[u8]) {
+    put_u32(o, b.len() as u32);
+    o.extend_from_slice(b);
+}
+
+pub fn serialize(seeds: &[Seed], st: &SeedStats) -> Vec<u8> {
+    let mut o = Vec::new();
+    put_u32(&mut o, 0x5EED_0001);
+    let stats = serde_json::json!({
+        "fonts": st.fonts, "tables_seen": st.tables_seen, "without": st.tables_without_target,
+        "dups": st.duplicates_dropped, "fit": st.static_fit_tried, "too_big": st.too_big,
+    })
+    .to_string();
+    put_bytes(&mut o, stats.as_bytes());
+    put_u32(&mut o, seeds.len() as u32);
+    for s in seeds {
+        put_bytes(&mut o, s.name.as_bytes());
+        put_bytes(&mut o, s.class.as_bytes());
+        put_u32(&mut o, s.ty.map(|t| t as u32 + 1).unwrap_or(0));
+        for a in s.args {
+            put_u32(&mut o, a);
+        }
+        put_u32(&mut o, s.drivers.len() as u32);
+        for (d, a) in &s.drivers {
+            put_u32(&mut o, *d as u32);
+            for x in a {
+                put_u32(&mut o, *x);
+            }
+        }
+        put_bytes(&mut o, &s.data);
+        put_u32(&mut o, s.ctx.len() as u32);
+        for c in &s.ctx {
+            put_bytes(&mut o, c);
+        }
+        put_u32(&mut o, s.pos_limit as u32);
+        put_u32(&mut o, s.extra_trunc.len() as u32);
+        for t in &s.extra_trunc {
+            put_u32(&mut o, *t);
+        }
+    }
+    o
+}
+
+pub fn deserialize(b: &[u8]) -> Option<(Vec<Seed>, SeedStats)> {
+    struct R<'a>(&'a [u8], usize);
+    impl<'a> R<'a> {
+        fn u32(&mut self) -> Option<u32> {
+            let v = self.0.get(self.1..self.1 + 4)?;
+            self.1 += 4;
+            Some(u32::from_le_bytes([v[0], v[1], v[2], v[3]]))
+        }
+        fn bytes(&mut self) -> Option<&'a [u8]> {
+            let n = self.u32()? as usize;
+            let v = self.0.get(self.1..self.1 + n)?;
+            self.1 += n;
+            Some(v)
+        }
+    }
+    let mut r = R(b, 0);
+    if r.u32()? != 0x5EED_0001 {
+        return None;
+    }
+    let stats: serde_json::Value = serde_json::from_slice(r.bytes()?).ok()?;
+    let st = SeedStats {
+        fonts: stats["fonts"].as_u64()? as usize,
+        tables_seen: stats["tables_seen"].as_u64()? as usize,
+        tables_without_target: stats["without"].as_array()?.iter().filter_map(|v| v.as_str().map(String::from)).collect(),
+        duplicates_dropped: stats["dups"].as_u64()? as usize,
+        static_fit_tried: stats["fit"].as_u64()?,
+        too_big: stats["too_big"].as_u64()? as usize,
+    };
+    let n = r.u32()? as usize;
+    let mut out = Vec::with_capacity(n);
+    for _ in 0..n {
+        let name = String::from_utf8(r.bytes()?.to_vec()).ok()?;
+        let class: &'static str = match r.bytes()? {
+            b"table" => "table",
+            b"file" => "file",
+            b"static" => "static",
+            b"zero" => "zero",
+            _ => return None,
+        };
+        let ty = match r.u32()? {
+            0 => None,
+            t => Some(t as usize - 1),
+        };
+        let args = [r.u32()?, r.u32()?, r.u32()?];
+        let nd = r.u32()? as usize;
+        let mut drivers = vec![];
+        for _ in 0..nd {
+            let d = r.u32()? as usize;
+            drivers.push((d, [r.u32()?, r.u32()?, r.u32()?]));
+        }
+        let data = r.bytes()?.to_vec();
+        let nc = r.u32()? as usize;
+        let mut ctx = vec![];
+        for _ in 0..nc {
+            ctx.push(r.bytes()?.to_vec());
+        }
+        let pos_limit = r.u32()? as usize;
+        let nt = r.u32()? as usize;
+        let mut extra_trunc = vec![];
+        for _ in 0..nt {
+            extra_trunc.push(r.u32()?);
+        }
+        out.push(Seed { name, class, ty, args, drivers, data, ctx, pos_limit, extra_trunc });
+    }
+    Some((out, st))
 }
